@@ -348,3 +348,12 @@ def c07_producer_work_gate(ctx, v):
         n += 1
     v.covers_total += 1
     v.covers_sat += 1 if n else 0
+
+
+def c07_pool_work_counter_exact(ctx, v):
+    """the routing work can_bundle_block compares with the burn-fee requirement is the work of the
+    transactions actually pooled: Mempool::delete_transactions recomputes it exactly and nothing
+    is removed from the pool after that in Blockchain::remove_block_transactions (same
+    obligation as C14 c14_delete_recomputes_work)."""
+    from .obl_c14 import c14_delete_recomputes_work
+    return c14_delete_recomputes_work(ctx, v)
